@@ -39,7 +39,7 @@ fn stub_composite<T: Sample>(
     // the references are handed over by value; not dropping them here keeps CBMC from exploring the drop glue of
     // Arc<IndexedFrame> (a whole Frame) for each of the four (always-None) slots
     std::mem::forget(_refs);
-    if kani::any() { Ok(()) } else { Err(any_error()) }
+    if kani::any() { Ok(()) } else { Err(crate::Error::NotReady) }
 }
 
 /// Which outcome the composite_preprocess stub produces: 0 = any (symbolic), 1 = Ok(true) (no composition needed),
@@ -51,8 +51,10 @@ fn stub_composite_preprocess(_frame: &IndexedFrame, _grid: &mut ImageWithRegion,
     match unsafe { PRE_MODE } {
         1 => Ok(true),
         2 => Ok(false),
-        3 => Err(any_error()),
-        _ => if kani::any() { Ok(kani::any()) } else { Err(any_error()) },
+        // a fixed error value: Result<bool, Error> keeps its Ok/Err discriminant in a niche of the error's tag, so a
+        // symbolic error variant would make CBMC explore the Ok continuation as well
+        3 => Err(crate::Error::NotReady),
+        _ => if kani::any() { Ok(kani::any()) } else { Err(crate::Error::NotReady) },
     }
 }
 
